@@ -25,10 +25,15 @@ class CellTranslator(AbstractTranslator):
         if not context.get_cell(cell):
             if isinstance(cell.value, str) and cell.value.find('=') == 0:
                 from excel2pycl.src.ast_builder import AstBuilder
+                from excel2pycl.src.exceptions import E2PyclParserException
                 from excel2pycl.src.lexer import Lexer
+                if cell.uid in context._cells_in_translation:
+                    raise E2PyclParserException(f'Cyclic dependency through {cell}')
+                context._cells_in_translation.add(cell.uid)
                 lexer = Lexer.parse(cell.value, in_cell=cell)
                 ast = AstBuilder.parse(lexer, in_cell=cell)
                 code = EntryPointTokenTranslator.translate(ast, excel, context)
+                context._cells_in_translation.discard(cell.uid)
             else:
                 code = repr(cell.value) if cell.value is not None else 'self.EmptyCell()'
             context.set_cell(cell, code)
